@@ -137,6 +137,11 @@ def run_case(kind, q):
     with warnings.catch_warnings():
         warnings.simplefilter("ignore")
         pattern = impl.pattern_from(q["pattern"])
+        if q.get("asym"):
+            # a user template that is wider than tall (or taller than wide), with irregular content
+            from libertem_blobfinder.common import patterns as pt_
+            tmpl = np.random.default_rng(q["seed"] + 7).uniform(0.2, 1.0, tuple(q["asym"]["shape"])).astype(np.float32)
+            pattern = pt_.UserTemplate(template=tmpl, search=q["asym"]["search"])
         shape = tuple(q["shape"])
         frames = make_frames(q, rng)
         peaks = np.asarray(q["peaks"], dtype=np.float64)
@@ -271,6 +276,10 @@ def search(ctx, boost=1, focus=()):
                   # no all-zero frames here: their correlation map is constant, every position is a maximiser and the reported
                   # centre depends on the order of summation (an exact tie, nothing the statement decides)
                   "frame_kinds": ["poisson" if fk == "zero" else fk for fk in q["frame_kinds"]]})
+        if k % 3 == 2:
+            c_ = int(np.ceil(q["pattern"]["search"]))
+            hh, ww = int(rng.integers(2, 4)), int(rng.integers(5, 2 * c_))
+            q["asym"] = {"shape": [hh, ww] if k % 2 else [ww, hh], "search": float(c_)}
         msgs = run_case("sparse", q)
         ctx.oracle_case("sparse", q, msgs, key=classify("sparse", q, msgs) if msgs else None,
                         nontrivial=len(q["tiling"]) > 1 or q["depth"] > 1)
